@@ -4,6 +4,7 @@ import (
 	"fmt"
 	"go/token"
 	"go/types"
+	"strconv"
 	"strings"
 
 	"golang.org/x/tools/go/ssa"
@@ -347,6 +348,9 @@ func c02Prefix(c *Ctx, p *Prog, pi *parserInfo) {
 		n++
 		for _, bnd := range []ssa.Value{sl.Low, sl.High} {
 			if usesLenOfInput(bnd, pi.bufPrm, 0) {
+				if isMinOfLenAndConst(bnd, pi.bufPrm) {
+					continue // min(len(input), K): at most K bytes, however much follows
+				}
 				bad5 = true
 				c.Fail("C02-R5", fmt.Sprintf("%s:slice[%s]", name, regSuffix.ReplaceAllString(valName(bnd), "")), p.pos(in.Pos()), "slice bound "+valName(bnd)+" is computed from the length of the whole input buffer: bytes after the sequence change what is decoded")
 			}
@@ -961,4 +965,46 @@ func alwaysConsumes(h *ssa.Function, buf *ssa.Parameter) bool {
 		}
 	}
 	return len(rets) > 0
+}
+
+// isMinOfLenAndConst: v is `n := len(input); if n > K { n = K }` — a phi of len(input) and a constant in
+// which the length arrives only along an edge where it is known not to exceed the constant.
+func isMinOfLenAndConst(v ssa.Value, buf *ssa.Parameter) bool {
+	phi, ok := v.(*ssa.Phi)
+	if !ok || len(phi.Edges) != 2 {
+		return false
+	}
+	for i, e := range phi.Edges {
+		o := phi.Edges[1-i]
+		k, isK := constInt(o)
+		if !isK {
+			if call, isCall := o.(*ssa.Call); isCall {
+				if b, isB := call.Call.Value.(*ssa.Builtin); isB && b.Name() == "len" {
+					if s, isS := constString(call.Call.Args[0]); isS {
+						k, isK = int64(len(s)), true
+					}
+				}
+			}
+		}
+		if !isK || !usesLenOfInput(e, buf, 0) {
+			continue
+		}
+		if _, isCall := e.(*ssa.Call); !isCall {
+			continue
+		}
+		if i >= len(phi.Block().Preds) {
+			continue
+		}
+		for _, a := range guardsOnEdge(phi.Block().Preds[i], phi.Block()) {
+			if a.L != valName(e) {
+				continue
+			}
+			if r, err := strconv.ParseInt(a.R, 10, 64); err == nil {
+				if (a.Op == "<=" && r <= k) || (a.Op == "<" && r <= k+1) {
+					return true
+				}
+			}
+		}
+	}
+	return false
 }
